@@ -132,7 +132,7 @@ package hamt
 //@ ensures err != nil ==> result == nil
 
 //@ func (*hamt._UnixFSHAMTShard).loadChild
-//@ prop C17
+//@ prop C02 C03 C15 C17
 //@ ensures child-is-a-reification-of-the-linked-block: err == nil ==> result != nil && entriesOf(result) == entriesBelow(pbLink.Hash.x)
 //@ inst child-is-a-reification-of-the-linked-block: cl: pbLink.Hash.x
 //@ ensures last-load-is-the-result: lastLoad == old(lastLoad) || (err == nil && lastLoad == result)
